@@ -265,6 +265,181 @@ theorem readCenter_emitFrame (mol : ℤ → Option ℤ) (nd : ℕ) (hnd : nd = 2
 
 end frame
 
+/-! ### column readers -/
+
+theorem toFloat_tokVal (t : Tok K) (v : K) (h : Spec.tokVal t = some v) : toFloat t = .ok v := by
+  cases t <;> simp [Spec.tokVal, toFloat] at h ⊢ <;> exact h
+
+theorem tokVal_pr (pr : K → Tok K) (hpr : ∀ x, toFloat (pr x) = .ok x) (x : K) : Spec.tokVal (pr x) = some x := by
+  have := hpr x
+  cases h : pr x <;> simp [h, toFloat, Spec.tokVal] at this ⊢ <;> exact this
+
+theorem atomVals_eq (pr : K → Tok K) (hpr : ∀ x, toFloat (pr x) = .ok x) (nd : ℕ) (a : AtomSpec K) :
+    Spec.atomVals nd a = (Lammps.Spec.atomLine pr nd a).map Spec.tokVal := by
+  have h1 : ∀ n : ℤ, Spec.tokVal (Tok.int n : Tok K) = some (n : K) := fun _ => rfl
+  simp [Spec.atomVals, Lammps.Spec.atomLine, h1, tokVal_pr pr hpr, Function.comp_def]
+
+/-- python `item[c-1]` then `float()` on an emitted atom line is the Spec's column `c` -/
+theorem pyItem_column (pr : K → Tok K) (hpr : ∀ x, toFloat (pr x) = .ok x) (nd : ℕ) (a : AtomSpec K) (c : ℤ) (v : K)
+    (hc : Spec.column nd a c = some v) :
+    (do let t ← Impl.pyItem (Lammps.Spec.atomLine pr nd a) (c - 1); toFloat t) = .ok v := by
+  unfold Spec.column at hc
+  split at hc
+  · rename_i h1
+    rw [atomVals_eq pr hpr, List.getElem?_map] at hc
+    cases ht : (Lammps.Spec.atomLine pr nd a)[(c - 1).toNat]? with
+    | none => rw [ht] at hc; simp at hc
+    | some t =>
+      rw [ht] at hc
+      simp at hc
+      have hlt : (c - 1).toNat < (Lammps.Spec.atomLine pr nd a).length := by
+        by_contra hge
+        rw [List.getElem?_eq_none (by omega)] at ht
+        cases ht
+      have hidx : pyIndex (Lammps.Spec.atomLine pr nd a).length (c - 1) = .ok (c - 1).toNat := by
+        unfold pyIndex
+        rw [if_pos (by omega)]
+      simp only [Impl.pyItem, hidx, ok_bind, item, ht]
+      exact toFloat_tokVal t v hc
+  · cases hc
+
+theorem colFloats_atomLine (pr : K → Tok K) (hpr : ∀ x, toFloat (pr x) = .ok x) (nd : ℕ) (cols : List ℤ) (a : AtomSpec K)
+    (hc : ∀ c ∈ cols, (Spec.column nd a c).isSome) :
+    Impl.colFloats cols (Lammps.Spec.atomLine pr nd a) = .ok (cols.map fun c => (Spec.column nd a c).getD 0) := by
+  unfold Impl.colFloats
+  apply mapM_ok_of
+  intro c hcm
+  obtain ⟨v, hv⟩ := Option.isSome_iff_exists.mp (hc c hcm)
+  rw [pyItem_column pr hpr nd a c v hv, hv]
+  rfl
+
+theorem placeLine_atomLine' (pr : K → Tok K) (nd w N : ℕ) (coords : Line K → Except Err (List K))
+    (cs : AtomSpec K → List K) (a : AtomSpec K) (st : Arrays K)
+    (hc : coords (Lammps.Spec.atomLine pr nd a) = .ok (cs a)) (hl : (cs a).length = w)
+    (hid : 1 ≤ a.id ∧ a.id ≤ N) :
+    placeLine w N coords (Lammps.Spec.atomLine pr nd a) st
+      = .ok ⟨st.ptype.set (a.id - 1).toNat a.type, st.pos.set (a.id - 1).toNat (cs a)⟩ := by
+  have hidx : pyIndex N (a.id - 1) = .ok (a.id - 1).toNat := by
+    unfold pyIndex
+    rw [if_pos (by omega)]
+  unfold placeLine
+  rw [hc]
+  simp [Lammps.Spec.atomLine, item, toInt, hidx, fitRow_of_length w (cs a) hl]
+
+/-- C01's `readAtoms_emit` with a row width independent of `ndim` and hypotheses only about the atoms of the frame -/
+theorem readAtoms_emit' (pr : K → Tok K) (nd w N : ℕ) (coords : Line K → Except Err (List K))
+    (cs : AtomSpec K → List K) (atoms : List (AtomSpec K))
+    (hc : ∀ a ∈ atoms, coords (Lammps.Spec.atomLine pr nd a) = .ok (cs a)) (hl : ∀ a ∈ atoms, (cs a).length = w)
+    (hid : ∀ a ∈ atoms, 1 ≤ a.id ∧ a.id ≤ N) (rest : Lines K) (st : Arrays K) :
+    readAtoms w N coords atoms.length (atoms.map (Lammps.Spec.atomLine pr nd) ++ rest) st
+      = .ok (placed cs atoms st, rest) := by
+  induction atoms generalizing st with
+  | nil => rfl
+  | cons a as ih =>
+    have h1 := placeLine_atomLine' pr nd w N coords cs a st (hc a (by simp)) (hl a (by simp)) (hid a (by simp))
+    simp only [List.length_cons, List.map_cons, List.cons_append, readAtoms, readline, h1, ok_bind]
+    rw [ih (fun b hb => hc b (by simp [hb])) (fun b hb => hl b (by simp [hb])) (fun b hb => hid b (by simp [hb]))]
+    rfl
+
+theorem atId_congr_mem {β : Type} (f : FrameSpec K) (hwf : Lammps.Spec.WF f) (k : ℕ) (hk : k < f.atoms.length)
+    (g g' : AtomSpec K → β) (d d' : β) (h : ∀ a ∈ f.atoms, g a = g' a) :
+    Lammps.Spec.atId f.atoms k g d = Lammps.Spec.atId f.atoms k g' d' := by
+  obtain ⟨a, ha, _, hby⟩ := byId_some f hwf k hk
+  simp [Lammps.Spec.atId, hby, h a ha]
+
+theorem readVector_emitFrame (pr : K → Tok K) (hpr : ∀ x, toFloat (pr x) = .ok x) (f : FrameSpec K)
+    (hwf : Lammps.Spec.WF f) (rest : Lines K) (cols : List ℤ) (nd : ℕ) (hnd : nd = 2 ∨ nd = 3) (htr : f.tric = false)
+    (hc : ∀ a ∈ f.atoms, ∀ c ∈ cols, (Spec.column nd a c).isSome) :
+    Impl.readVector nd cols (Lammps.Spec.emitFrame pr nd f ++ rest) = .ok (some (Spec.vector nd cols f, rest)) := by
+  obtain ⟨l, ls, hT⟩ := emitFrame_cons pr hpr f hwf rest nd
+  have hh := auxHeader_emit pr hpr f hwf rest nd hnd htr l ls hT
+  have hra := readAtoms_emit' pr nd cols.length f.atoms.length (Impl.colFloats cols)
+    (fun a => cols.map fun c => (Spec.column nd a c).getD 0) f.atoms
+    (fun a ha => colFloats_atomLine pr hpr nd cols a (hc a ha)) (by simp) (wf_range f hwf) rest
+    (zeros cols.length f.atoms.length)
+  rw [placed_zeros f hwf] at hra
+  rw [hT]
+  simp only [Impl.readVector, hh, ok_bind, hra]
+  rcases hnd with rfl | rfl
+  · simp [Spec.vector, Frame.mk.injEq, col, subList, diag, range2]
+  · simp [Spec.vector, Frame.mk.injEq, col, subList, diag, range3]
+
+theorem bind_ok_split {ε β γ : Type} {x : Except ε β} {g : β → Except ε γ} {v : γ} (h : (x >>= g) = .ok v) :
+    ∃ t, x = .ok t ∧ g t = .ok v := by
+  cases x with
+  | error e => cases h
+  | ok t => exact ⟨t, rfl, h⟩
+
+theorem addRowLoop_emit (pr : K → Tok K) (hpr : ∀ x, toFloat (pr x) = .ok x) (nd N : ℕ) (ncol : ℤ)
+    (atoms : List (AtomSpec K)) (hid : ∀ a ∈ atoms, 1 ≤ a.id ∧ a.id ≤ N)
+    (hc : ∀ a ∈ atoms, (Spec.column nd a (ncol + 1)).isSome) (row : List K) :
+    Impl.addRowLoop N ncol (atoms.map (Lammps.Spec.atomLine pr nd)) row
+      = .ok (atoms.foldl (fun l a => l.set (a.id - 1).toNat ((Spec.column nd a (ncol + 1)).getD 0)) row) := by
+  induction atoms generalizing row with
+  | nil => rfl
+  | cons a as ih =>
+    obtain ⟨v, hv⟩ := Option.isSome_iff_exists.mp (hc a (by simp))
+    have hcomb := pyItem_column pr hpr nd a (ncol + 1) v hv
+    rw [show ncol + 1 - 1 = ncol by omega] at hcomb
+    obtain ⟨t, ht, htv⟩ := bind_ok_split hcomb
+    have hi := hid a (by simp)
+    have hidx : pyIndex N (a.id - 1) = .ok (a.id - 1).toNat := by
+      unfold pyIndex
+      rw [if_pos (by omega)]
+    have h0 : item (Lammps.Spec.atomLine pr nd a) 0 = .ok (Tok.int a.id) := by
+      simp [Lammps.Spec.atomLine, item]
+    simp only [List.map_cons, Impl.addRowLoop, h0, ok_bind, toInt, hidx, ht, htv, List.foldl_cons, hv, Option.getD_some]
+    exact ih (fun b hb => hid b (by simp [hb])) (fun b hb => hc b (by simp [hb])) _
+
+theorem emit_length (pr : K → Tok K) (nd N : ℕ) (fs : List (FrameSpec K)) (hN : ∀ f ∈ fs, f.atoms.length = N) :
+    (Lammps.Spec.emit pr nd fs).length = fs.length * (N + 9) := by
+  induction fs with
+  | nil => simp [Lammps.Spec.emit]
+  | cons f fs ih =>
+    rw [emit_cons, List.length_append, emitFrame_length, ih (fun g hg => hN g (by simp [hg])), hN f (by simp)]
+    simp only [List.length_cons]
+    ring
+
+theorem map_range_getElem? {β γ : Type} (l : List β) (g : β → γ) (d : γ) :
+    (List.range l.length).map (fun k => ((l[k]?).map g).getD d) = l.map g := by
+  apply List.ext_getElem?
+  intro i
+  by_cases hi : i < l.length
+  · simp [hi, List.getElem?_eq_getElem hi]
+  · simp [hi, List.getElem?_eq_none (Nat.le_of_not_lt hi)]
+
+theorem readAdditions_emit (pr : K → Tok K) (hpr : ∀ x, toFloat (pr x) = .ok x) (nd N : ℕ) (ncol : ℕ)
+    (f0 : FrameSpec K) (more : List (FrameSpec K))
+    (hwf : ∀ f ∈ f0 :: more, Lammps.Spec.WF f ∧ f.atoms.length = N ∧
+      ∀ a ∈ f.atoms, (Spec.column nd a ((ncol : ℤ) + 1)).isSome) :
+    Impl.readAdditions (ncol : ℤ) (Lammps.Spec.emit pr nd (f0 :: more))
+      = .ok (Spec.additions nd ncol N (f0 :: more)) := by
+  have hN : ∀ f ∈ f0 :: more, f.atoms.length = N := fun f hf => (hwf f hf).2.1
+  have h3 : (Lammps.Spec.emit pr nd (f0 :: more))[3]? = some [Tok.int (N : ℤ)] := by
+    rw [emit_cons]
+    have := hN f0 (by simp)
+    cases htr : f0.tric <;> simp [Lammps.Spec.emitFrame, Lammps.Spec.header, htr, this]
+  have hlen := emit_length pr nd N (f0 :: more) hN
+  unfold Impl.readAdditions
+  simp only [h3, ok_bind, pyInt]
+  rw [if_neg (by omega), hlen, Int.toNat_natCast, Nat.mul_div_cancel _ (by omega : 0 < N + 9)]
+  rw [mapM_ok_of _ (fun k => (((f0 :: more)[k]?).map (fun f => (List.range N).map fun k =>
+      Lammps.Spec.atId f.atoms k (fun a => (Spec.column nd a ((ncol : ℤ) + 1)).getD 0) 0)).getD [])]
+  · rw [map_range_getElem? (f0 :: more) (fun f => (List.range N).map fun k =>
+      Lammps.Spec.atId f.atoms k (fun a => (Spec.column nd a ((ncol : ℤ) + 1)).getD 0) 0) []]
+    rfl
+  · intro k hk
+    have hk' : k < (f0 :: more).length := List.mem_range.mp hk
+    rw [slice_emit pr nd N (f0 :: more) hN k hk', List.getElem?_eq_getElem hk']
+    have hf := hwf _ (List.getElem_mem hk')
+    rw [addRowLoop_emit pr hpr nd N (ncol : ℤ) _ (by
+      have := wf_range _ hf.1
+      rw [hf.2.1] at this
+      exact this) hf.2.2]
+    have hp : ∀ a ∈ ((f0 :: more)[k]).atoms, 1 ≤ a.id := fun a ha => (wf_range _ hf.1 a ha).1
+    rw [foldl_set_replicate _ _ _ _ (wf_nodup _ hf.1) hp]
+    rfl
+
 /-- the wrapper loop over an emitted trajectory, for any per-frame reader that reads one emitted frame correctly -/
 theorem loopFuel_emit (pr : K → Tok K) (nd : ℕ) (step : Lines K → Except Err (Option (Frame K × Lines K)))
     (out : FrameSpec K → Frame K) (P : FrameSpec K → Prop)
